@@ -28,9 +28,9 @@ func (c *ctx) n(k int) int {
 	return c.r.IntN(k)
 }
 func (c *ctx) chance(p float64) bool { return c.r.Float64() < p }
-func (c *ctx) thorough() bool      { return c.tier == "thorough" }
-func (c *ctx) add(ev *h.Event)     { c.sc.Events = append(c.sc.Events, ev) }
-func (c *ctx) key() uint64         { return c.r.Uint64() }
+func (c *ctx) thorough() bool        { return c.tier == "thorough" }
+func (c *ctx) add(ev *h.Event)       { c.sc.Events = append(c.sc.Events, ev) }
+func (c *ctx) key() uint64           { return c.r.Uint64() }
 
 func streamOf(prop string, index int) uint64 {
 	f := fnv.New64a()
@@ -300,7 +300,9 @@ func genC01(c *ctx) {
 	if c.thorough() {
 		stride = 1
 	}
-	chk := func() *h.Check { return &h.Check{Key: c.key(), Stride: stride, Limit: []uint{0, 0, 1, 2, 3, 7}[c.n(6)]} }
+	chk := func() *h.Check {
+		return &h.Check{Key: c.key(), Stride: stride, Limit: []uint{0, 0, 1, 2, 3, 7}[c.n(6)]}
+	}
 	faulty := c.chance(0.4)
 	// full text, nothing collected yet
 	c.add(&h.Event{K: "check", Check: chk()})
